@@ -362,7 +362,7 @@ func freshView(c *imapc.Client) (*wview, error) {
 				continue
 			}
 			names = append(names, unquote(m[4]))
-			listAttrs[unquote(m[4])] = normSet(strings.Fields(m[2]))
+			listAttrs[unquote(m[4])] = stored(normSet(strings.Fields(m[2])))
 		}
 	}
 	r, err = okCmd(c, `LSUB "" "*"`)
